@@ -483,16 +483,133 @@ Lemma Forall2_skipn {A B} (R : A -> B -> Prop) n l1 l2 :
   Forall2 R l1 l2 -> Forall2 R (skipn n l1) (skipn n l2).
 Proof. intros H; revert n; induction H; intros [|n]; simpl; auto. Qed.
 
-(* ---------- first-order values are related to themselves ---------- *)
+(* ---------- well-formed constants are related to themselves ---------- *)
 
-Lemma fo_vrel : forall v, fo v = true -> vrel v v.
+Lemma cwf_vrel : forall v, cwf v -> vrel v v.
 Proof.
   induction v as [z|f|s|b|l IH|m IH|ps b c s|t] using value_ind2; intros H;
-    cbn [fo] in H; try discriminate; try constructor.
+    cbn [cwf] in H; try constructor.
+  - induction IH as [|x l Hx Hl IHl]; auto. destruct H. constructor; auto.
+  - induction IH as [|x l Hx Hl IHl]; auto. destruct H. constructor; auto.
+  - destruct H as (-> & -> & W). cbn. discriminate.
+  - destruct H as (-> & -> & W). auto.
+  - destruct H as (-> & -> & W). exact W.
+Qed.
+
+Lemma fo_cwf : forall v, fo v = true -> cwf v.
+Proof.
+  induction v as [z|f|s|b|l IH|m IH|ps b c s|t] using value_ind2; intros H;
+    cbn [fo] in H; try discriminate; cbn [cwf]; auto.
   - induction IH as [|x l Hx Hl IHl]; simpl in *; auto.
-    apply andb_true_iff in H. destruct H. constructor; auto.
+    apply andb_true_iff in H. destruct H. split; [auto|apply IHl; assumption].
   - induction IH as [|x l Hx Hl IHl]; simpl in *; auto.
-    apply andb_true_iff in H. destruct H. constructor; auto.
+    apply andb_true_iff in H. destruct H. split; [auto|apply IHl; assumption].
+Qed.
+
+Lemma fo_vrel v : fo v = true -> vrel v v.
+Proof. intros H. apply cwf_vrel, fo_cwf, H. Qed.
+
+(* a first-order reference value is related only to itself *)
+Lemma vrel_fo_eq : forall v1 v2, vrel v1 v2 -> fo v1 = true -> v1 = v2.
+Proof.
+  induction v1 as [z|f|s|b|l IH|m IH|ps b c s|t] using value_ind2; intros v2 Hv Hf;
+    inversion Hv; subst; auto; cbn [fo] in Hf; try discriminate.
+  - f_equal. rename H0 into HF. clear Hv. induction HF as [|x y l l' Hxy HF IHF]; auto.
+    inversion IH; subst. simpl in Hf. apply andb_true_iff in Hf. destruct Hf.
+    f_equal; auto.
+  - f_equal. rename H0 into HF. clear Hv. induction HF as [|[k x] [k' y] l l' [Hk Hxy] HF IHF]; auto.
+    inversion IH; subst. simpl in *. apply andb_true_iff in Hf. destruct Hf. subst k'.
+    f_equal; auto. f_equal; auto.
+Qed.
+
+(* ---------- the decidable check is sound ---------- *)
+
+Lemma index_of_oeqb_some_in x am i : index_of oname_eqb (Some x) am = Some i -> In (Some x) am.
+Proof.
+  revert i; induction am as [|[y|] am IH]; intros i H; [discriminate| |].
+  - rewrite index_of_cons_some in H. destruct (str_eqb x y) eqn:E.
+    + apply str_eqb_true in E. subst. left; auto.
+    + destruct (index_of oname_eqb (Some x) am) eqn:E2; simpl in H; [|discriminate]. right. eapply IH; eauto.
+  - rewrite index_of_cons_none in H.
+    destruct (index_of oname_eqb (Some x) am) eqn:E2; simpl in H; [|discriminate]. right. eapply IH; eauto.
+Qed.
+
+Lemma in_am_true am x : in_am am x = true -> In (Some x) am.
+Proof.
+  unfold in_am. destruct (index_of oname_eqb (Some x) am) eqn:E; [|discriminate].
+  intros _. eapply index_of_oeqb_some_in; eauto.
+Qed.
+
+Lemma in_am_false am x : in_am am x = false -> ~ In (Some x) am.
+Proof.
+  unfold in_am. intros H Hin. destruct (index_of_oeqb_in _ _ Hin) as [i Hi]. rewrite Hi in H. discriminate.
+Qed.
+
+Lemma mem_name_true x l : mem_name x l = true -> In x l.
+Proof.
+  induction l as [|y l IH]; simpl; [discriminate|].
+  intros H. apply orb_true_iff in H. destruct H as [H|H]; [left; symmetry; apply str_eqb_true; auto|auto].
+Qed.
+
+Lemma mem_name_false x l : mem_name x l = false -> ~ In x l.
+Proof.
+  induction l as [|y l IH]; simpl; [tauto|].
+  intros H. apply orb_false_iff in H. destruct H as [H1 H2].
+  intros [->|Hin]; [rewrite str_eqb_refl in H1; discriminate|]. apply IH; auto.
+Qed.
+
+Lemma resolvable_true am cm n : in_am am n || mem_name n cm = true -> In (Some n) am \/ In n cm.
+Proof.
+  intros H. apply orb_true_iff in H. destruct H; [left; apply in_am_true|right; apply mem_name_true]; auto.
+Qed.
+
+Ltac bsplit H :=
+  repeat match type of H with
+  | _ && _ = true => let H1 := fresh "B" in apply andb_true_iff in H; destruct H as [H H1]
+  end.
+
+Lemma wfb_list_sound am cm l :
+  Forall (fun a => forall am cm, wfb am cm a = true -> wf am cm a) l ->
+  forallb (wfb am cm) l = true -> wf_list (wf am cm) l.
+Proof.
+  induction 1 as [|a l Ha Hl IH]; simpl; auto.
+  intros H. apply andb_true_iff in H. destruct H. split; auto.
+Qed.
+
+Theorem wfb_sound : forall a am cm, wfb am cm a = true -> wf am cm a.
+Proof.
+  intros a.
+  induction a as [v|x|x v b IHv IHb|c t e IHc IHt IHe|v cases d IHv IHcases IHd|t c IHt IHc|op x IHx
+                 |op x y IHx IHy|ps body outer r this IHbody|l IHl|l i IHl IHi|m IHm|m k IHm
+                 |f args IHf IHargs|f args IHargs|r m args IHr IHargs] using ast_ind2;
+    intros am cm W; cbn [wfb wf] in *.
+  - apply fo_cwf; auto.
+  - apply resolvable_true; auto.
+  - apply andb_true_iff in W. destruct W as [W W3]. apply andb_true_iff in W. destruct W as [W1 W2].
+    split; [auto|]. split; [|auto]. apply in_am_false. destruct (in_am am x); auto; discriminate.
+  - apply andb_true_iff in W. destruct W as [W W3]. apply andb_true_iff in W. destruct W as [W1 W2].
+    auto.
+  - apply andb_true_iff in W. destruct W as [W W3]. apply andb_true_iff in W. destruct W as [W1 W2].
+    split; [auto|]. split; [auto|].
+    clear IHv IHd W1 W2. induction IHcases as [|[cc cr] l [Hc1 Hc2] Hl IH]; simpl in *; auto.
+    apply andb_true_iff in W3. destruct W3 as [W W3]. apply andb_true_iff in W. destruct W.
+    repeat split; auto.
+  - apply andb_true_iff in W. destruct W. auto.
+  - auto.
+  - apply andb_true_iff in W. destruct W. auto.
+  - apply andb_true_iff in W. destruct W as [W W3]. apply andb_true_iff in W. destruct W as [W1 W2].
+    split; [|split; [|auto]].
+    + intros n Hn. rewrite forallb_forall in W1. apply resolvable_true. auto.
+    + intros Hne. destruct this as [|c this']; [tauto|]. apply mem_name_false.
+      destruct (mem_name (c :: this') outer); auto; discriminate.
+  - apply wfb_list_sound; auto.
+  - apply andb_true_iff in W. destruct W. auto.
+  - induction IHm as [|[k a] l Ha Hl IH]; simpl in *; auto.
+    apply andb_true_iff in W. destruct W. split; auto.
+  - auto.
+  - apply andb_true_iff in W. destruct W. split; [auto|apply wfb_list_sound; auto].
+  - apply wfb_list_sound; auto.
+  - apply andb_true_iff in W. destruct W. split; [auto|apply wfb_list_sound; auto].
 Qed.
 
 (* ---------- outcomes ---------- *)
